@@ -142,9 +142,9 @@ fn err_name(e: &rs_matter::error::Error) -> String {
 impl<'a, C: Crypto> World<'a, C> {
     fn reset(&mut self) {
         self.matter.with_state(|st| {
-            let ids: Vec<u32> = st.verif_sessions().iter().map(|s| s.id()).collect();
+            let ids: Vec<u32> = st.verif_sessions_mut().iter().map(|s| s.id()).collect();
             for id in ids {
-                st.verif_sessions().remove(id);
+                st.verif_sessions_mut().remove(id);
             }
         });
         self.installed = 0;
@@ -155,12 +155,12 @@ impl<'a, C: Crypto> World<'a, C> {
 
     fn snapshots(&self) -> Vec<(String, String)> {
         let installed = self.installed;
-        self.matter.with_state(|st| st.verif_sessions().iter().enumerate().map(|(i, s)| snap(s, i >= installed)).collect())
+        self.matter.with_state(|st| st.verif_sessions_mut().iter().enumerate().map(|(i, s)| snap(s, i >= installed)).collect())
     }
 
     fn op_s(&mut self, m: &HashMap<String, String>) -> String {
         let r = self.matter.with_state(|st| {
-            let sess = st.verif_sessions().add(num(m, "tx") as u32, false, addr(num(m, "a")), hexnum(m, "pn"), &TEST_DEV_DET);
+            let sess = st.verif_sessions_mut().add(num(m, "tx") as u32, false, addr(num(m, "a")), hexnum(m, "pn"), &TEST_DEV_DET);
             match sess {
                 Ok(sess) => {
                     install(sess, m);
